@@ -16,7 +16,8 @@
    * store = association list  oid |-> (bytes, mode, token); token = (ino, mtime, size) exactly as
      fs.info presents them (the harness sets mtime with an explicit os.utime clock and passes the
      observed triple).  Store class Local | Base.  w_fmode = the mode a freshly copied file gets.
-   * state cache = association list oid |-> row (token, algorithm name, value); the key of the real
+   * state cache = association list oid |-> row (token, algorithm name, value); the validity decision
+     of a row is the translated State._get (Gen/State.v); the key of the real
      cache is the object's path, which oid_to_path makes injective in the oid.  _checksum(info) is
      modelled as the (injective) triple itself.  w_state = false is StateNoop.
    * the digest H : name -> bytes -> oid is a Section variable; the correspondence instantiates it
@@ -27,7 +28,7 @@
      exist; the copy cannot fail (no fault injection here - that is C04/C11).
    stdlib lists only. *)
 From Coq Require Import NArith List Bool.
-From DvcData Require Import Base.Val Gen.Check.
+From DvcData Require Import Base.Val Base.PyBase Gen.Check Gen.PyTypes Model.StateDbBase Gen.State.
 Import ListNotations.
 Open Scope N_scope.
 
@@ -37,9 +38,9 @@ Definition name := list N.
 
 Inductive cls := Local | Base.
 
-Record token := T { t_ino : N; t_mtime : N; t_size : N }.
-Definition token_eqb (a b : token) : bool :=
-  (t_ino a =? t_ino b) && (t_mtime a =? t_mtime b) && (t_size a =? t_size b).
+(* token = (ino, mtime, size): the record of Model/StateDbBase.v, which the translated State._get
+   (Gen/State.v, unit "state") is stated over *)
+Notation T := Build_token.
 
 Record obj := Ob { o_bytes : bytes; o_mode : N; o_tok : token }.
 Record row := Rw { r_tok : token; r_alg : name; r_val : oid }.
@@ -97,12 +98,24 @@ Section WithDigest.
   Variable H : name -> bytes -> oid.
 
   (* State.get + the acceptance test of hash_file:
-       raw = hashes.get(path); entry["checksum"] == _checksum(info); version <= HASH_VERSION
-       (rows are written with version 1); hash_info.name == name *)
+       raw = hashes.get(path); State._get(path, raw, info)  -- TRANSLATED: Gen.State.State__get
+       (checksum comparison, version <= HASH_VERSION, legacy md5 renaming); then
+       meta is not None and hash_info is not None and hash_info.name == name.
+     A row of this model is the JSON entry State.save writes: version HASH_VERSION, the checksum of
+     the token, the size, {alg: value}. *)
+  Definition srow_of (r : row) : srow :=
+    mk_srow (State_checksum (r_tok r)) (Some State_HASH_VERSION) (t_size (r_tok r))
+            [(r_alg r, PVStr (r_val r))].
+
   Definition st_hit (w : world) (o : oid) (tok : token) : option oid :=
     if w_state w then
       match lookup o (w_db w) with
-      | Some r => if token_eqb (r_tok r) tok && list_N_eqb (r_alg r) (w_alg w) then Some (r_val r) else None
+      | Some r =>
+          match State__get (Some (srow_of r)) tok with
+          | Some (_, hi) =>
+              if opt_eqb list_N_eqb (hi_name hi) (Some (w_alg w)) then hi_value hi else None
+          | None => None
+          end
       | None => None
       end
     else None.
